@@ -4,7 +4,7 @@
    off that cell's row. *)
 From Coq Require Import Arith NArith List Bool Lia Sorted Permutation.
 From Blue Require Import Scrunch.ModelBits Scrunch.Model Scrunch.ModelWT Scrunch.ProofsBits
-  Scrunch.ProofsSorted Scrunch.ProofsSuffix Scrunch.ProofsSearch Scrunch.ProofsSigma Scrunch.ProofsWT1.
+  Scrunch.ProofsSorted Scrunch.ProofsSuffix Scrunch.ProofsIAP Scrunch.ProofsSearch Scrunch.ProofsSigma Scrunch.ProofsWT1.
 Import ListNotations.
 Local Open Scope nat_scope.
 
